@@ -1,5 +1,7 @@
 import QV.C35.Spec
+import QV.C35.Lemmas
 import QV.C26.Props
+import QV.C25.Props
 /-
 C35 — Dead-code removal keeps execution and removes exactly unused definitions.
 
@@ -252,5 +254,249 @@ theorem C35_simplified_matching (p p' : C26.Prog) (body : List Instr)
     · rintro ⟨h1, _, h3⟩; exact ⟨h1, h3⟩
     · rintro ⟨h1, h3⟩
       exact ⟨h1, C26_reported_frames_defined p i m hm f (Or.inr h1), h3⟩
+
+section FrameLevel
+open QV.C26
+
+/-- the hypothesis of the schedule clause: `p'` keeps exactly the frames of `p` that some instruction of
+`body` uses, and has the same used qubits (what `simplify` does to the intermediate program) -/
+structure KeepsUsedFrames (p p' : C26.Prog) (body : List Instr) : Prop where
+  frames : ∀ f, f ∈ p'.frames ↔
+    f ∈ p.frames ∧ ∃ j ∈ body, ∃ mj, matchingFrames p j = some mj ∧ f ∈ mj.used
+  avail : ∀ q, q ∈ usedQubits p ↔ q ∈ usedQubits p'
+
+/-- **(a)** every body instruction uses exactly the same frames after simplification -/
+theorem C35_used_eq {p p' : C26.Prog} {body : List Instr} (h : KeepsUsedFrames p p' body)
+    {i : Instr} (hi : i ∈ body) {m m' : Matched}
+    (hm : matchingFrames p i = some m) (hm' : matchingFrames p' i = some m') (f : Frame) :
+    f ∈ m'.used ↔ f ∈ m.used :=
+  (C35_simplified_matching p p' body h.frames h.avail i hi m m' hm hm').1 f
+
+/-- **(b)** its blocked frames are the old ones restricted to the kept frames (a frame that is only ever
+blocked is dropped, and with it the blocking) -/
+theorem C35_blocked_restrict {p p' : C26.Prog} {body : List Instr} (h : KeepsUsedFrames p p' body)
+    {i : Instr} (hi : i ∈ body) {m m' : Matched}
+    (hm : matchingFrames p i = some m) (hm' : matchingFrames p' i = some m') (f : Frame) :
+    f ∈ m'.blocked ↔ f ∈ m.blocked ∧ f ∈ p'.frames := by
+  have := (C35_simplified_matching p p' body h.frames h.avail i hi m m' hm hm').2 f
+  rw [this, h.frames f]
+  constructor
+  · rintro ⟨h1, h2⟩
+    exact ⟨h1, C26_reported_frames_defined p i m hm f (Or.inr h1), h2⟩
+  · rintro ⟨h1, _, h2⟩; exact ⟨h1, h2⟩
+
+/-- a result is reported after simplification iff it was before -/
+theorem C35_reported_iff {p p' : C26.Prog} {body : List Instr} (h : KeepsUsedFrames p p' body) (i : Instr) :
+    (matchingFrames p' i).isSome = (matchingFrames p i).isSome :=
+  (C35_matching_monotone p p' i (fun f hf => ((h.frames f).1 hf).1) (Or.inl h.avail)).1
+
+/-- two instructions conflict on a frame when one of them USES it and the other uses or blocks it (the
+only situation in which the dependency queues of C23/C24 order them: blocking accesses do not conflict
+with each other) -/
+def FrameConflict (m1 m2 : Matched) (f : Frame) : Prop :=
+  (f ∈ m1.used ∧ (f ∈ m2.used ∨ f ∈ m2.blocked)) ∨ (f ∈ m1.blocked ∧ f ∈ m2.used)
+
+/-- **(c)** the frame-conflict relation between body instructions is unchanged: a dropped frame is used by
+nobody, so it never made two instructions conflict -/
+theorem C35_conflicts_eq {p p' : C26.Prog} {body : List Instr} (h : KeepsUsedFrames p p' body)
+    {i j : Instr} (hi : i ∈ body) (hj : j ∈ body) {mi mi' mj mj' : Matched}
+    (hmi : matchingFrames p i = some mi) (hmi' : matchingFrames p' i = some mi')
+    (hmj : matchingFrames p j = some mj) (hmj' : matchingFrames p' j = some mj') (f : Frame) :
+    FrameConflict mi' mj' f ↔ FrameConflict mi mj f := by
+  have ui := C35_used_eq h hi hmi hmi' f
+  have uj := C35_used_eq h hj hmj hmj' f
+  have bi := C35_blocked_restrict h hi hmi hmi' f
+  have bj := C35_blocked_restrict h hj hmj hmj' f
+  have kept_i : f ∈ mi.used → f ∈ p'.frames := fun hu =>
+    (h.frames f).2 ⟨C26_reported_frames_defined p i mi hmi f (Or.inl hu), i, hi, mi, hmi, hu⟩
+  have kept_j : f ∈ mj.used → f ∈ p'.frames := fun hu =>
+    (h.frames f).2 ⟨C26_reported_frames_defined p j mj hmj f (Or.inl hu), j, hj, mj, hmj, hu⟩
+  unfold FrameConflict
+  rw [ui, uj, bi, bj]
+  constructor
+  · rintro (⟨h1, h2 | ⟨h2, _⟩⟩ | ⟨⟨h1, _⟩, h2⟩)
+    · exact Or.inl ⟨h1, Or.inl h2⟩
+    · exact Or.inl ⟨h1, Or.inr h2⟩
+    · exact Or.inr ⟨h1, h2⟩
+  · rintro (⟨h1, h2 | h2⟩ | ⟨h1, h2⟩)
+    · exact Or.inl ⟨h1, Or.inl h2⟩
+    · exact Or.inl ⟨h1, Or.inr ⟨h2, kept_i h1⟩⟩
+    · exact Or.inr ⟨⟨h1, kept_j h2⟩, h2⟩
+
+
+/-- non-vacuity of (a)–(c) with a dropped-but-blocked frame: frames `0 "a"`, `0 "b"`, body = one blocking
+`PULSE 0 "a"`: it uses `a` and BLOCKS `b`; nobody uses `b`, so simplification drops it, and afterwards the pulse
+uses `a` and blocks nothing. -/
+def exA : Frame := ⟨"a", [.fixed 0]⟩
+def exB : Frame := ⟨"b", [.fixed 0]⟩
+def exP : C26.Prog := ⟨[exA, exB], [.pulse true exA]⟩
+def exP' : C26.Prog := ⟨[exA], [.pulse true exA]⟩
+
+private theorem exP_matching : matchingFrames exP (.pulse true exA) = some ⟨[exA], [exB]⟩ := by
+  simp [matchingFrames, defaultFrameMatchCondition, QV.C26.filter, getMatching, exP, exA, exB]
+
+private theorem exP'_matching : matchingFrames exP' (.pulse true exA) = some ⟨[exA], []⟩ := by
+  simp [matchingFrames, defaultFrameMatchCondition, QV.C26.filter, getMatching, exP', exA]
+
+example : KeepsUsedFrames exP exP' [.pulse true exA] ∧ exB ∈ exP.frames ∧ exB ∉ exP'.frames := by
+  refine ⟨⟨?_, fun q => Iff.rfl⟩, by simp [exP], by simp [exP', exA, exB]⟩
+  intro f
+  simp only [List.mem_singleton, exists_eq_left, exP_matching, Option.some.injEq, exists_eq_left']
+  simp only [exP, exP', List.mem_cons, List.mem_singleton, List.not_mem_nil, or_false]
+  constructor
+  · intro h; exact ⟨Or.inl h, h⟩
+  · intro h; exact h.2
+
+end FrameLevel
+
+/-- In the model of `simplify`: a frame of the expanded program that is dropped is used by no body
+instruction (so the hypothesis of the graph theorems below holds for the dropped frames). -/
+theorem C35_dropped_never_used (e : Prog F) (f : F × String) (hf : f ∈ e.frames)
+    (hd : f ∉ (simplify e).frames) : ∀ i ∈ e.body, f.1 ∉ i.used := by
+  intro i hi hu
+  exact hd (((C35_simplify_spec e).frames_iff f).2 ⟨hf, i, hi, hu⟩)
+
+/-! ### Part 3: dependency graphs and schedules (over the C22–C25 model `QV.Sched`) -/
+
+open QV.Sched in
+/-- what `dropBlockedL D` does to one instruction: the blocked set loses the frames of `D`, nothing else
+changes -/
+def restrictI (D : List Nat) (ins : Sched.Instr) : Sched.Instr :=
+  { ins with frames := ins.frames.map fun fr => (fr.1, fr.2.filter (fun x => !D.contains x)) }
+
+open QV.Sched in
+theorem C35_dropBlockedL_instrs (D : List Nat) (b : Block) :
+    (dropBlockedL D b).instrs = b.instrs.map (restrictI D) ∧
+      (dropBlockedL D b).term = b.term.map (restrictI D) := by
+  have hI : ∀ (f : Nat) (r : List Nat) (ins : Sched.Instr),
+      dropBlockedI f (restrictI r ins) = restrictI (f :: r) ins := by
+    intro f r ins
+    cases ins with
+    | mk a b c d e g fr =>
+      cases fr with
+      | none => rfl
+      | some v =>
+        simp only [dropBlockedI, restrictI, Option.map_some, List.filter_filter]
+        congr 3
+        apply List.filter_congr
+        intro x _
+        by_cases hx : x = f <;> simp [hx]
+  induction D with
+  | nil =>
+    have : restrictI ([] : List Nat) = id := by
+      funext ins
+      cases ins with
+      | mk a b c d e g fr =>
+        cases fr with
+        | none => rfl
+        | some v =>
+          have : List.filter (fun _ => true) v.2 = v.2 := List.filter_eq_self.2 (fun _ _ => rfl)
+          simp [restrictI, this]
+    simp [dropBlockedL, this]
+  | cons f r ih =>
+    have e : dropBlockedL (f :: r) b = dropBlocked f (dropBlockedL r b) := rfl
+    rw [e]
+    simp only [dropBlocked, ih.1, ih.2, List.map_map, Option.map_map]
+    constructor
+    · apply List.map_congr_left; intro ins _; exact hI f r ins
+    · cases b.term <;> simp [hI]
+
+open QV.Sched in
+/-- **Dependency graphs.** For every block and every set `D` of frames that no instruction USES: the graph
+built after removing `D` from all blocked sets (what simplification does to the handler's answers, by
+`C35_used_eq` / `C35_blocked_restrict`) fails with the same error, or is the original graph with some edges
+out of the block start / into the block end deleted — every edge between two instructions, with its label,
+is kept, in the same order. A frame nobody uses never creates an edge between two instructions. -/
+theorem C35_graph_eq (D : List Nat) (b : Block) (hu : ∀ f ∈ D, ∀ p ∈ b.items, NeverUsedI f p.2) :
+    BuildRel (buildBlock (dropBlockedL D b)) (buildBlock b) :=
+  buildBlock_dropBlockedL D b hu
+
+open QV.Sched in
+/-- the deleted edges are boundary edges, the others are edges of the original graph, and every edge between
+two instructions of the original graph survives -/
+theorem C35_graph_edges {es' es : List Edge} (h : SubB es' es) :
+    (∀ e ∈ es', e ∈ es) ∧ (∀ e ∈ es, e ∈ es' ∨ e.src = .start ∨ e.dst = .stop) := by
+  refine ⟨h.mem, ?_⟩
+  induction h with
+  | nil => simp
+  | keep e _ ih =>
+    intro x hx
+    simp only [List.mem_cons] at hx ⊢
+    rcases hx with rfl | hx
+    · exact Or.inl (Or.inl rfl)
+    · exact (ih x hx).imp (fun h => Or.inr h) id
+  | drop e hb _ ih =>
+    intro x hx
+    simp only [List.mem_cons] at hx
+    rcases hx with rfl | hx
+    · exact Or.inr hb
+    · exact ih x hx
+
+open QV.Sched in
+/-- **Schedules, same visiting order.** With the same (non-negative) durations, `as_schedule` gives the
+IDENTICAL outcome (items, total duration, or the same error) on both graphs. -/
+theorem C35_schedule_eq (D : List Nat) (b : Block) (hu : ∀ f ∈ D, ∀ p ∈ b.items, NeverUsedI f p.2)
+    (es' es : List Edge) (h' : buildBlock (dropBlockedL D b) = .ok es') (h : buildBlock b = .ok es)
+    (L : Nat) (order : List Node) (dur : Nat → Option Int) (hd : ∀ i d, dur i = some d → 0 ≤ d) :
+    asSchedule L order es' dur = asSchedule L order es dur := by
+  have hr := C35_graph_eq D b hu
+  rw [h', h] at hr
+  exact scheduleLoop_subB L hr dur hd order [] [] 0 (by intro p hp; simp at hp)
+
+open QV.Sched in
+/-- **Schedule clause (partial: over the scheduling model, durations given).** Whatever orders petgraph's
+`Topo` visits the two graphs in (duplicate-free, containing every instruction; the original graph's
+`Scheduled` edges point forward — `C22_forward`), every instruction gets the same start time and duration
+in the simplified and in the expanded program.
+MISSING for the end-to-end statement (checked by the correspondence on every case, not proved): (1) that
+the duration function is the same for both programs — it is, because `instruction_duration_seconds` reads
+only the invoked waveform's definition and the SAMPLE-RATEs of the frames the instruction USES, all of which
+`simplify` keeps with their values (`C35_simplify_spec`, `C35_used_eq`); (2) that the harness's numbering of
+frames turns the simplified program's handler answers into `dropBlockedL D` of the expanded program's
+(`C35_used_eq`, `C35_blocked_restrict` are that statement before numbering). -/
+theorem C35_block_schedule_same_partial (D : List Nat) (b : Block)
+    (hu : ∀ f ∈ D, ∀ p ∈ b.items, NeverUsedI f p.2)
+    (es' es : List Edge) (h' : buildBlock (dropBlockedL D b) = .ok es') (h : buildBlock b = .ok es)
+    (L : Nat) (dur : Nat → Option Int) (hd : ∀ i d, dur i = some d → 0 ≤ d)
+    (hfwd : ∀ e ∈ es, e.label = .scheduled → e.src.pos L < e.dst.pos L)
+    (order' order : List Node) (hnd' : order'.Nodup) (hnd : order.Nodup)
+    (hall' : ∀ i, i < L → Node.instr i ∈ order') (hall : ∀ i, i < L → Node.instr i ∈ order)
+    (items' items : List SItem) (T' T : Int)
+    (hs' : asSchedule L order' es' dur = .ok items' T') (hs : asSchedule L order es dur = .ok items T) :
+    ∀ x ∈ items', ∀ y ∈ items, x.index = y.index → x.start = y.start ∧ x.dur = y.dur := by
+  rw [C35_schedule_eq D b hu es' es h' h L order' dur hd] at hs'
+  have a1 := C25.C25_asap L order' es dur items' T' hnd' hall' hs'
+  have a2 := C25.C25_asap L order es dur items T hnd hall hs
+  intro x hx y hy hxy
+  exact C25.C25_asap_unique L es dur hfwd items' items T' T a1 a2 (x.index + 1) x hx y hy hxy (by omega)
+
+/-- non-vacuity, with a dropped-but-blocked frame: two blocking pulses on frame 0 that both BLOCK frame 1,
+which nobody uses. Frame 1 satisfies the hypothesis, it does occur in blocked sets, removing it deletes 10
+boundary edges of 16, and the schedule (1 s each, back to back) is the same. -/
+def exampleBlock : Sched.Block :=
+  ⟨[⟨.rf, true, false, [], [], [], some ([0], [1])⟩, ⟨.rf, true, false, [], [], [], some ([0], [1])⟩], none⟩
+
+example : (∀ p ∈ exampleBlock.items, NeverUsedI 1 p.2) ∧
+    (∃ ins ∈ exampleBlock.instrs, ∃ fr, ins.frames = some fr ∧ 1 ∈ fr.2) := by
+  constructor
+  · intro p hp
+    simp [exampleBlock, Sched.Block.items, Sched.enumFrom] at hp
+    rcases hp with rfl | rfl <;> intro fr hfr <;> simp at hfr <;> subst hfr <;> simp
+  · exact ⟨_, List.mem_cons_self, ([0], [1]), rfl, by simp⟩
+
+/-- the edges of a block's graph (empty on error) -/
+def edgesOf (b : Sched.Block) : List Sched.Edge :=
+  match Sched.buildBlock b with
+  | .ok es => es
+  | .error _ => []
+
+example :
+    (edgesOf exampleBlock).length = 16 ∧ (edgesOf (dropBlockedL [1] exampleBlock)).length = 6 ∧
+      Sched.asSchedule 2 [.start, .instr 0, .instr 1, .stop] (edgesOf exampleBlock) (fun _ => some 1024) =
+        .ok [⟨0, 0, 1024⟩, ⟨1, 1024, 1024⟩] 2048 ∧
+      Sched.asSchedule 2 [.start, .instr 1, .instr 0, .stop] (edgesOf (dropBlockedL [1] exampleBlock))
+          (fun _ => some 1024) =
+        Sched.asSchedule 2 [.start, .instr 1, .instr 0, .stop] (edgesOf exampleBlock) (fun _ => some 1024) := by
+  decide
 
 end QV.C35
